@@ -54,7 +54,7 @@ theorem std_valid (dim : Nat) (lmin lmax : Int) (hd : 1 ≤ dim) (h0 : 0 ≤ lmi
 section
 variable {dim : Nat} {lmin : Int} {c : List (LV × Int)} {J : LV → Prop} [DecidablePred J]
 
-theorem mem_unionPoints (a b : List Rat) (bd : Bool) (c : List (LV × Int)) (x : List Rat) :
+theorem mem_unionPoints (a b : List Rat) (bd : Flags) (c : List (LV × Int)) (x : List Rat) :
     x ∈ unionPoints a b bd c ↔ ∃ p ∈ c, x ∈ gridPoints a b p.1 bd := by
   unfold unionPoints
   rw [List.mem_flatMap]
@@ -62,14 +62,14 @@ theorem mem_unionPoints (a b : List Rat) (bd : Bool) (c : List (LV × Int)) (x :
 /-- the level vector `k(x)` of a point of the union grid: it lies in the index set, and the component grids that
 contain `x` are exactly those of level `≥ k(x)` -/
 theorem union_levelvec (hv : ValidScheme dim lmin c J) (h0 : 0 ≤ lmin) (a b : List Rat) (ha : a.length = dim)
-    (hb : b.length = dim) (bd : Bool) (x : List Rat) (hx : x ∈ unionPoints a b bd c) :
+    (hb : b.length = dim) (bd : Flags) (x : List Rat) (hx : x ∈ unionPoints a b bd c) :
     ∃ k : LV, k.length = dim ∧ geAll lmin k ∧ J k ∧ InGrid bd a b k x ∧
       ∀ l : LV, l.length = dim → geAll lmin l → (x ∈ gridPoints a b l bd ↔ leAll k l = true) := by
   rw [mem_unionPoints] at hx
   obtain ⟨p, hp, hxp⟩ := hx
   obtain ⟨hlen, hmin⟩ := hv.shape p hp
   rw [mem_gridPoints bd a b p.1 x (by omega) (by omega)] at hxp
-  obtain ⟨k, hk1, hk2, hk3, hk4, hk5⟩ := exists_levelvec bd lmin h0 a b p.1 x hmin hxp
+  obtain ⟨k, hk1, hk2, hk3, hk4, hk5⟩ := exists_levelvec lmin h0 bd a b p.1 x hmin hxp
   refine ⟨k, by omega, hk2, hv.down k p.1 (by omega) hlen hk2 hk3 (hv.supp p hp), hk4, ?_⟩
   intro l hl hlmin
   rw [mem_gridPoints bd a b l x (by omega) (by omega)]
@@ -78,7 +78,7 @@ theorem union_levelvec (hv : ValidScheme dim lmin c J) (h0 : 0 ≤ lmin) (a b : 
 /-- **point-wise coefficient sums**: at every point of the union grid the coefficients of the component grids that
 contain it sum to 1 (what `check_combi_scheme` asserts) -/
 theorem valid_point_coeff_sum (hv : ValidScheme dim lmin c J) (h0 : 0 ≤ lmin) (a b : List Rat)
-    (ha : a.length = dim) (hb : b.length = dim) (bd : Bool) (x : List Rat) (hx : x ∈ unionPoints a b bd c) :
+    (ha : a.length = dim) (hb : b.length = dim) (bd : Flags) (x : List Rat) (hx : x ∈ unionPoints a b bd c) :
     pointCoeffSum a b bd c x = 1 := by
   obtain ⟨k, hk1, hk2, hkJ, _, hk5⟩ := union_levelvec hv h0 a b ha hb bd x hx
   have hfil : c.filter (fun p => (gridPoints a b p.1 bd).contains x) = c.filter (fun p => leAll k p.1) := by
@@ -96,7 +96,7 @@ theorem valid_point_coeff_sum (hv : ValidScheme dim lmin c J) (h0 : 0 ≤ lmin) 
 /-- **nodal exactness**: at every point of the union grid the combined interpolant returns the mesh value of an
 ARBITRARY function `f` there, i.e. `f x` (or `0` where `points_not_zero` declares `x` a boundary point) -/
 theorem valid_nodal_exact (hv : ValidScheme dim lmin c J) (h0 : 0 ≤ lmin) (a b : List Rat) (hab : BoxOK a b)
-    (ha : a.length = dim) (bd : Bool) (f : List Rat → Rat) (x : List Rat) (hx : x ∈ unionPoints a b bd c) :
+    (ha : a.length = dim) (bd : Flags) (f : List Rat → Rat) (x : List Rat) (hx : x ∈ unionPoints a b bd c) :
     combiInterp a b bd c f x = meshVal a b bd f x := by
   have hb : b.length = dim := by rw [← BoxOK_length a b hab]; exact ha
   obtain ⟨k, hk1, hk2, hkJ, hk4, _⟩ := union_levelvec hv h0 a b ha hb bd x hx
@@ -110,7 +110,7 @@ theorem valid_nodal_exact (hv : ValidScheme dim lmin c J) (h0 : 0 ≤ lmin) (a b
 
 /-- **the union of the component grids is the sparse grid of the index set** `⋃_{k ∈ J} grid_k` -/
 theorem valid_union (hv : ValidScheme dim lmin c J) (a b : List Rat) (ha : a.length = dim) (hb : b.length = dim)
-    (bd : Bool) (x : List Rat) :
+    (bd : Flags) (x : List Rat) :
     x ∈ unionPoints a b bd c ↔ ∃ k : LV, J k ∧ x ∈ gridPoints a b k bd := by
   rw [mem_unionPoints]
   constructor
@@ -141,7 +141,7 @@ end
 
 /-! ## linearity of the combined interpolant in the function -/
 
-theorem meshVal_lin (a b : List Rat) (bd : Bool) (α β : Rat) (f g : List Rat → Rat) (p : List Rat) :
+theorem meshVal_lin (a b : List Rat) (bd : Flags) (α β : Rat) (f g : List Rat → Rat) (p : List Rat) :
     meshVal a b bd (fun q => α * f q + β * g q) p = α * meshVal a b bd f p + β * meshVal a b bd g p := by
   unfold meshVal
   split <;> ring
@@ -153,7 +153,7 @@ theorem sum_map_lin {ι : Type} (l : List ι) (α β : Rat) (u v : ι → Rat) :
   | cons i l ih => simp only [List.map_cons, List.sum_cons, ih]; ring
 
 /-- the combined interpolant is linear in the function (so nodal unit functions / hats determine it) -/
-theorem combiInterp_lin (a b : List Rat) (bd : Bool) (c : List (LV × Int)) (α β : Rat) (f g : List Rat → Rat)
+theorem combiInterp_lin (a b : List Rat) (bd : Flags) (c : List (LV × Int)) (α β : Rat) (f g : List Rat → Rat)
     (x : List Rat) :
     combiInterp a b bd c (fun q => α * f q + β * g q) x
       = α * combiInterp a b bd c f x + β * combiInterp a b bd c g x := by
@@ -178,7 +178,7 @@ theorem zipWith_sum_scale (f : List Rat → Rat) (κ : Rat) : ∀ (P : List (Lis
       simp only [List.zipWith_cons_cons, List.sum_cons, zipWith_sum_scale f κ P W]; ring
 
 /-- the reported combined integral is the combined quadrature rule `get_points_and_weights` applied to `f` -/
-theorem combiIntegral_eq_weights (a b : List Rat) (bd : Bool) (c : List (LV × Int)) (f : List Rat → Rat) :
+theorem combiIntegral_eq_weights (a b : List Rat) (bd : Flags) (c : List (LV × Int)) (f : List Rat → Rat) :
     combiIntegral a b bd c f = ((combiPointsWeights a b bd c).map fun e => f e.1 * e.2).sum := by
   unfold combiIntegral combiPointsWeights
   induction c with
